@@ -242,6 +242,7 @@ class Graph:
                     if not foreign:
                         src.relabel = lambda subst, p=p, sp=sp: self.label(p, sp, subst=subst)
                     src.discharged = guarded_arith(self.facts, p, sp, kind) or enumerate_index(self.facts, p, sp, kind) or \
+                        bounded_operands(self.facts, p, sp, kind) or \
                         (consumed_prefix(self.facts, p, sp, 'sub') if kind == 'Overflow(Sub)' else None)
                     out.append(src)
                 elif t['k'] in ('Call', 'TailCall'):
@@ -569,6 +570,80 @@ def guarded_arith(facts, body_path, src_sp, kind):
                 return 'guarded: a comparison that holds at the addition bounds the operand by %s::MAX - %d' % (ty, c)
             if c == 1 and holds(l, 'Ne', {'k': 'Lit', 'v': mx}):
                 return 'guarded: the operand is known to differ from %s::MAX' % ty
+    return None
+
+UNSIGNED = ('u8', 'u16', 'u32', 'u64', 'usize')
+ISIZE_MAX = 2 ** 63 - 1
+# in-memory sequences of elements that occupy at least one byte: their length is at most isize::MAX (the language's bound on the
+# size of an allocation); a sequence of zero-sized elements has no such bound and is not listed
+_SIZED_ELEM = r"(?:[iu](?:8|16|32|64|128|size)|bool|char|f32|f64)"
+_BYTE_SEQ = re.compile(r"^(?:\[" + _SIZED_ELEM + r"(?:; \d+)?\]|alloc::vec::Vec<" + _SIZED_ELEM + r"(?:, [^<>]*)?>|str|alloc::string::String|"
+                       r"bytes::bytes_mut::BytesMut|bytes::bytes::Bytes)$")
+
+def upper_bound(facts, B, e, depth=0):
+    """An upper bound, by construction, of a non-negative integer expression: the smallest of what its type allows and what its
+    form allows - a constant; `x & m` with a constant m >= 0 (at most m, whatever x is); `x % m` / `x >> k` of an unsigned x; a
+    cast of an unsigned value (its bound carries over, capped by the target type); `s.len()` of an in-memory sequence of non-zero-
+    sized elements (at most isize::MAX); a sum of bounded operands; an immutable `let` is its initialiser.  None when the
+    expression's type is not an unsigned integer (nothing is claimed about signed arithmetic)."""
+    e = _hirq.peel_refs(e)
+    ty = _hirq.strip_refs(e.get('ty') or '')
+    if ty not in UNSIGNED or depth > 12:
+        return None
+    cap = INT_MAX[ty]
+    v = _hirq.const_eval(facts, e)
+    if isinstance(v, int) and not isinstance(v, bool):
+        return v if 0 <= v <= cap else None
+    if e['k'] == 'Path' and e.get('res') == 'local':
+        # a binding that is not `mut` (so nothing can change it, not even through a reference) is its initialiser
+        d = B.defs.get(e['bind'])
+        if d and d['kind'] == 'let' and not d['proj'] and d['src'] is not None and (d['pat'].get('mode') or '').endswith(', Not)') \
+                and _hirq.strip_refs(d['src'].get('ty') or '') == ty:
+            return upper_bound(facts, B, d['src'], depth + 1)
+        return cap
+    k = e['k']
+    sub = lambda x: upper_bound(facts, B, x, depth + 1)
+    if k == 'Cast':
+        inner = sub(e['e'])          # None for a signed source: a negative value would become a large one
+        return cap if inner is None else min(cap, inner)
+    if k == 'Binary':
+        op = e['op']
+        cl, cr = _hirq.const_eval(facts, e['l']), _hirq.const_eval(facts, e['r'])
+        if op == 'BitAnd':
+            ms = [c for c in (cl, cr) if isinstance(c, int) and not isinstance(c, bool) and c >= 0]
+            bs = [b for b in (sub(e['l']), sub(e['r'])) if b is not None]
+            return min([cap] + ms + bs)
+        if op == 'Rem' and isinstance(cr, int) and cr > 0:
+            return min(cap, cr - 1)
+        if op == 'Shr' and isinstance(cr, int) and 0 <= cr < 64:
+            l = sub(e['l'])
+            return cap if l is None else min(cap, l >> cr)
+        if op == 'Add':
+            l, r2 = sub(e['l']), sub(e['r'])
+            return cap if l is None or r2 is None else min(cap, l + r2)
+    if k == 'MethodCall' and e.get('name') == 'len' and not e['args'] and _BYTE_SEQ.match(_hirq.strip_refs(e['recv'].get('ty') or '')):
+        return min(cap, ISIZE_MAX)
+    return cap
+
+def bounded_operands(facts, body_path, src_sp, kind):
+    """D7: an Overflow(Add) assert on an unsigned `a + b` is discharged when the operands are bounded by construction (see
+    upper_bound) and the bounds add up to at most the type's maximum: `2 + (x & 127) as usize`, `2 + slice.len()`,
+    `hdr as usize + n as usize` with u8 / u16 sources.  Nothing is read off a guard here - an operand that is merely *tested* to
+    be small is D2's business - so there is no guard whose removal could go unnoticed."""
+    rec = hir_owner(facts, body_path)
+    if rec is None or kind != 'Overflow(Add)':
+        return None
+    B = _hirq.Body(facts, rec)
+    cands = [n for n in B.nodes if n['k'] == 'Binary' and n.get('sp') and list(n['sp'][:5]) == list(src_sp[:5])]
+    if len(cands) != 1 or cands[0]['op'] != 'Add':
+        return None
+    n = cands[0]
+    ty = _hirq.strip_refs(n.get('ty') or '')
+    if ty not in UNSIGNED:
+        return None
+    l, r = upper_bound(facts, B, n['l']), upper_bound(facts, B, n['r'])
+    if l is not None and r is not None and l + r <= INT_MAX[ty]:
+        return 'operands bounded by construction: at most %d + %d, within %s' % (l, r, ty)
     return None
 
 def enumerate_index(facts, body_path, src_sp, kind):
